@@ -93,10 +93,10 @@ Definition prog_eqb (a b : program * (symtab * macrotab)) : bool :=
   list_eqb cmd_eqb (fst a) (fst b) && list_eqb symp_eqb (fst (snd a)) (fst (snd b)) &&
   list_eqb slot_eqb (snd (snd a)) (snd (snd b)).
 
-(* ((v_text, (v_cdata, v_eof)), (events, real result)) *)
-Definition chk_compile (c : (bool * (bool * bool)) * (list event * option (program * (symtab * macrotab)))) : bool :=
-  let '((vt, (vc, ve)), (evs, real)) := c in
-  match compile (mkVariant vt vc ve) evs, real with
+(* ((v_text, (v_cdata, (v_eof, (v_dup, v_start)))), (events, real result)) *)
+Definition chk_compile (c : (bool * (bool * (bool * (bool * bool)))) * (list event * option (program * (symtab * macrotab)))) : bool :=
+  let '((vt, (vc, (ve, (vd, vs)))), (evs, real)) := c in
+  match compile (mkVariant vt vc ve vd vs) evs, real with
   | COk p, Some q => prog_eqb p q
   | CErr, None => true
   | _, _ => false
